@@ -4020,6 +4020,10 @@ class PyCdlib:
             # Create the Reserve Volume Descriptor Sequence.
             reserve_pvd = udfmod.UDFPrimaryVolumeDescriptor()
             reserve_pvd.new()
+            # The Reserve Volume Descriptor Sequence is a copy of the Main
+            # one, so it must carry the same (partly random) Volume Set
+            # Identifier.
+            reserve_pvd.vol_set_ident = pvd.vol_set_ident
             self.udf_reserve_descs.pvds.append(reserve_pvd)
 
             reserve_impl_use = udfmod.UDFImplementationUseVolumeDescriptor()
